@@ -323,6 +323,12 @@ def main : IO Unit := do
       (match V.append c v b w0 with
         | (a', b', w', some ()) => s!"{repr a'} {repr b'} evs={repr w'.evs} bad={repr w'.bad} ok"
         | (a', b', w', none) => s!"{repr a'} {repr b'} evs={repr w'.evs} bad={repr w'.bad} panic")))) out
+  let its : List (String × V.It) := [("src[]", .src { items := [], hint := 0 }), ("src3", .src { items := [⟨70, 1⟩, ⟨71, 2⟩, ⟨72, 3⟩], hint := 2 }),
+    ("src3-panic@1", .src { items := [⟨70, 1⟩, ⟨71, 2⟩, ⟨72, 3⟩], hint := 0, panicAt := some 1 }), ("src9-hint20", .src { items := (List.range 9).map (fun i => ⟨300 + i, i⟩), hint := 20 }),
+    ("cloned2", .cloned [⟨80, 1⟩, ⟨81, 2⟩]), ("owned2", .owned [⟨85, 1⟩, ⟨86, 2⟩])]
+  out := add (firstDiff "Vec: Extend<T>" ((vc.flatMap fun (c, v) => its.map fun it => (c, v, it)).filterMap fun (c, v, (itn, it)) =>
+    let m := V.extend c v it w0
+    if m.2.1.bad.isEmpty then some (vtag c v ++ s!" iter={itn}", showM (RsM.toModel (Gen.Fn.vec_extend c it (v, w0))), showM m) else none)) out
   -- the lossy UTF-8 chunker on all strings of up to 3 boundary bytes (and a few longer ones)
   let bs : List UInt8 := [0x00, 0x41, 0x7F, 0x80, 0x8F, 0x90, 0x9F, 0xA0, 0xBF, 0xC0, 0xC2, 0xDF, 0xE0, 0xE1, 0xEC, 0xED, 0xEE, 0xEF, 0xF0, 0xF1, 0xF3, 0xF4, 0xF5, 0xFF]
   let strs : List (List UInt8) := (bs.map fun a => [a]) ++ (bs.flatMap fun a => bs.map fun b => [a, b]) ++
